@@ -14,6 +14,14 @@ class Outside(Exception):
     pass
 
 
+class _Continue(Exception):
+    pass
+
+
+class _Break(Exception):
+    pass
+
+
 class Raised(Exception):
     def __init__(self, name):
         super().__init__(name)
@@ -22,6 +30,49 @@ class Raised(Exception):
 
 _STR_METHODS = {"replace", "strip", "lstrip", "rstrip", "lower", "upper", "startswith",
                 "endswith", "split", "join", "format", "rjust", "ljust", "zfill"}
+
+
+class TextFile:
+    """What open_binary()/open_text() hand out, over fixed content."""
+
+    def __init__(self, lines):
+        self.lines = list(lines)
+
+    def readline(self):
+        return self.lines.pop(0) if self.lines else type(self.lines[0])() if self.lines else b""
+
+    def read(self):
+        out = (b"" if (self.lines and isinstance(self.lines[0], bytes)) else "").join(self.lines) \
+            if self.lines else b""
+        self.lines = []
+        return out
+
+    def readlines(self):
+        out, self.lines = self.lines, []
+        return out
+
+    def __iter__(self):
+        while self.lines:
+            yield self.lines.pop(0)
+
+
+NATIVES = {}        # name -> python callable, set by the caller for the duration of a run
+
+
+def run_function(fnode, args, consts=None, funcs=None, natives=None):
+    """(return value, final local environment) of fnode(*args)."""
+    global NATIVES
+    old = NATIVES
+    NATIVES = dict(natives or {})
+    try:
+        consts = consts or {}
+        funcs = funcs or {}
+        params = [a.arg for a in fnode.args.args]
+        env = dict(zip(params, args))
+        r = block(fnode.body, env, consts, funcs, 0)
+        return (r[1] if r is not None else None), env
+    finally:
+        NATIVES = old
 
 
 def call_function(fnode, args, consts=None, funcs=None, depth=0):
@@ -51,8 +102,34 @@ def block(stmts, env, consts, funcs, depth):
             if not isinstance(st.value, ast.Constant):
                 ev(st.value, env, consts, funcs, depth)
             continue
-        if isinstance(st, ast.Pass):
+        if isinstance(st, (ast.Pass, ast.Global, ast.Nonlocal)):
             continue
+        if isinstance(st, ast.With):
+            for it in st.items:
+                v = ev(it.context_expr, env, consts, funcs, depth)
+                if it.optional_vars is not None:
+                    assign(it.optional_vars, v, env)
+            r = block(st.body, env, consts, funcs, depth)
+            if r is not None:
+                return r
+            continue
+        if isinstance(st, ast.For) and not st.orelse:
+            broke = False
+            for item in list(ev(st.iter, env, consts, funcs, depth)):
+                assign(st.target, item, env)
+                try:
+                    r = block(st.body, env, consts, funcs, depth)
+                except _Continue:
+                    continue
+                except _Break:
+                    break
+                if r is not None:
+                    return r
+            continue
+        if isinstance(st, ast.Continue):
+            raise _Continue()
+        if isinstance(st, ast.Break):
+            raise _Break()
         if isinstance(st, ast.Assign):
             v = ev(st.value, env, consts, funcs, depth)
             for t in st.targets:
@@ -232,6 +309,22 @@ def ev(e, env, consts, funcs, depth):
             recv = ev(e.func.value, env, consts, funcs, depth)
             if isinstance(recv, (str, bytes)):
                 return getattr(recv, e.func.attr)(*args)
+        if isinstance(e.func, ast.Attribute) and e.func.attr in _STR_METHODS | {"decode", "encode"}:
+            recv = ev(e.func.value, env, consts, funcs, depth)
+            if isinstance(recv, (str, bytes)):
+                return getattr(recv, e.func.attr)(*args)
+        if isinstance(e.func, ast.Attribute) and e.func.attr in ("append", "extend", "insert", "pop",
+                                                                   "index", "count"):
+            recv = ev(e.func.value, env, consts, funcs, depth)
+            if isinstance(recv, list):
+                try:
+                    return getattr(recv, e.func.attr)(*args)
+                except (IndexError, ValueError) as x:
+                    raise Raised(type(x).__name__) from None
+        if isinstance(e.func, ast.Attribute) and e.func.attr in ("readline", "read", "readlines"):
+            recv = ev(e.func.value, env, consts, funcs, depth)
+            if isinstance(recv, TextFile):
+                return getattr(recv, e.func.attr)(*args)
         if isinstance(e.func, ast.Attribute) and e.func.attr == "get" and len(args) in (1, 2):
             recv = ev(e.func.value, env, consts, funcs, depth)
             if isinstance(recv, dict):
@@ -240,7 +333,29 @@ def ev(e, env, consts, funcs, depth):
         if nm in ("int", "str", "len", "bool", "abs", "min", "max", "tuple", "list", "oct", "hex"):
             return {"int": int, "str": str, "len": len, "bool": bool, "abs": abs, "min": min,
                     "max": max, "tuple": tuple, "list": list, "oct": oct, "hex": hex}[nm](*args)
+        if nm in NATIVES:
+            return NATIVES[nm](*args)
+        if nm in ("range", "enumerate", "zip", "sorted", "set", "sum", "float"):
+            return {"range": lambda *a: list(range(*a)), "enumerate": lambda x: list(enumerate(x)),
+                    "zip": lambda *a: list(zip(*a)), "sorted": sorted, "set": set, "sum": sum,
+                    "float": float}[nm](*args)
         if nm in funcs:
             return call_function(funcs[nm], args, consts, funcs, depth + 1)
         raise Outside(f"call {nm}")
     raise Outside(type(e).__name__)
+
+
+def module_constants(mod_assigns, consts=None):
+    """Module-level names bound ONCE to an expression this evaluator can evaluate
+    from constants (literal tables, flag arithmetic): name -> value.
+    mod_assigns: {name: [value expr, ...]} (ModuleInfo.assigns)."""
+    out = dict(consts or {})
+    for _ in range(3):                       # tables may refer to earlier constants
+        for name, vals in mod_assigns.items():
+            if name in out or len(vals) != 1:
+                continue
+            try:
+                out[name] = ev(vals[0], {}, out, {}, 0)
+            except (Outside, Raised, Exception):  # noqa: BLE001
+                continue
+    return out
